@@ -61,7 +61,10 @@ class Db:
         th = self.th
         if self.kind == "mem":
             return [self.abs_point(p) for p in list(iter(self.db))]
-        rows = self.read_rows()
+        try:
+            rows = self.read_rows()
+        except Exception:                       # undecodable file (wrong encoding, broken quoting): itself a divergence
+            return [dict(UNKNOWN_POINT)]
         return [self.decode_row(r) for r in rows]
 
     def read_rows(self):
